@@ -3,8 +3,10 @@
 (* responses).  "write_all": each segment is offered until fully accepted,  *)
 (* Interrupted retried, Zero / Fail returned as errors.  "single": one      *)
 (* write() call per segment, count ignored - the defect C14 names.          *)
-(* MC_IoSink_write_all.cfg must pass; MC_IoSink_single.cfg must FAIL        *)
-(* (the check runs both: the specification distinguishes the designs).      *)
+(* "okinterrupt": like write_all, but Interrupted ends the loop with Ok.     *)
+(* MC_IoSink_write_all.cfg must pass; MC_IoSink_single.cfg and               *)
+(* MC_IoSink_okinterrupt.cfg must FAIL (the check runs all three: the        *)
+(* specification distinguishes the designs).                                 *)
 EXTENDS IoSink, TLC
 CONSTANTS Segs, Design, MaxResp
 VARIABLES seg, off, nresp
@@ -18,11 +20,13 @@ Done == seg > Len(Segs)
 WOffer == /\ ~Done /\ offered = 0 /\ result = "running"
           /\ Offer(Segs[seg] - off, Canon(seg, off) = pos)
           /\ UNCHANGED <<seg, off, nresp>>
-Advance(k) == IF Design = "write_all"
+Advance(k) == IF Design \in {"write_all", "okinterrupt"}
               THEN IF off + k = Segs[seg] THEN seg' = seg + 1 /\ off' = 0 ELSE seg' = seg /\ off' = off + k
               ELSE seg' = seg + 1 /\ off' = 0                      \* single write: move on regardless of k
 SAccept == /\ nresp < MaxResp /\ \E k \in 1..offered : Accept(k) /\ Advance(k) /\ nresp' = nresp + 1
-SInterrupted == /\ nresp < MaxResp /\ Interrupted /\ nresp' = nresp + 1 /\ UNCHANGED <<seg, off>>
+\* "okinterrupt": the writer leaves its loop when the sink reports Interrupted and goes on to return success
+SInterrupted == /\ nresp < MaxResp /\ Interrupted /\ nresp' = nresp + 1
+                /\ IF Design = "okinterrupt" THEN seg' = Len(Segs) + 1 /\ off' = 0 ELSE UNCHANGED <<seg, off>>
 SFail == /\ nresp < MaxResp /\ (Fail \/ Zero) /\ nresp' = nresp + 1 /\ UNCHANGED <<seg, off>>
 WReturn == \/ (Done /\ ReturnOk /\ UNCHANGED <<seg, off, nresp>>)
            \/ (sinkFailed /\ ReturnErr /\ UNCHANGED <<seg, off, nresp>>)
